@@ -209,7 +209,7 @@ def main(argv):
         "uncovered_branches": sorted(set(getattr(prop, "all_branches", [])) - set(branches)),
         "known_finding_hits": dict(known_hits),
         "mirror_source_hashes": core.source_hash(prop.mirrors()),
-        "exhaustive": bool(getattr(prop, "exhaustive", {}).get(tier, False)),
+        "exhaustive": bool(getattr(prop, "exhaustive_tiers", {}).get(tier, False)),
     })
     extra = getattr(prop, "extra_evidence", None)
     if extra:
